@@ -196,3 +196,71 @@ def run_check(check, tier, seed, replay=None):
     except Infra as e:
         log("[%s] INFRASTRUCTURE ERROR: %s" % (pid, e))
         return 2
+
+
+# ------------------------------------------------------------------ selftest
+def _mutate(v):
+    """a different value of the same JSON type"""
+    if isinstance(v, bool):
+        return not v
+    if isinstance(v, int):
+        return v + 1
+    if isinstance(v, str):
+        return v + "x"
+    if isinstance(v, list):
+        if not v:
+            return [0]
+        if all(isinstance(x, int) and not isinstance(x, bool) for x in v):
+            return [(v[0] + 1) % 256] + v[1:]
+        return v[:-1]
+    return v
+
+
+def run_selftest(check, seed):
+    """Binding demonstration: corrupt one recorded field at a time in executions recorded from the unchanged tree and
+    show that trace validation rejects the corrupted trace; writes /verif/selftest/<id>.json"""
+    import copy
+    pid = check.pid
+    try:
+        core.build_harness()
+        groups = check.groups("quick", seed)
+        step = max(1, len(groups) // 150)
+        groups = groups[::step][:150]
+        evg = check.record(groups)
+        base_bad, _ = check.validate(evg, pid + "-self0")
+        base_bad = check.filter_bad(base_bad)
+        fields = getattr(check, "selftest_fields", None)
+        if fields is None:
+            keys = set()
+            for evs in evg:
+                for e in evs:
+                    keys |= set(e.keys())
+            fields = sorted(keys - {"case", "panic"})
+        report = {"property": pid, "baseline_failing": len(base_bad), "fields": {}}
+        for f in fields:
+            mut = copy.deepcopy(evg)
+            n = 0
+            for evs in mut:
+                for e in evs:
+                    if f in e and e[f] not in (None, "", [], {}) or (f in e and isinstance(e[f], (bool, int))):
+                        e[f] = _mutate(e[f])
+                        n += 1
+            if not n:
+                continue
+            try:
+                bad, _ = check.validate(mut, pid + "-self")
+                bad = check.filter_bad(bad)
+                report["fields"][f] = {"mutated_events": n, "rejected_events": len(bad), "bound": len(bad) > len(base_bad)}
+            except Infra as e:
+                # the trace specification could not even evaluate the corrupted trace: also a rejection
+                report["fields"][f] = {"mutated_events": n, "rejected_events": -1, "bound": True, "note": "TLC could not evaluate the corrupted trace"}
+            log("[%s] selftest field %-10s mutated %5d -> %s" % (pid, f, n, report["fields"][f]))
+        os.makedirs(os.path.join(core.VERIF, "selftest"), exist_ok=True)
+        with open(os.path.join(core.VERIF, "selftest", pid + ".json"), "w") as fh:
+            json.dump(report, fh, indent=1, sort_keys=True)
+        unbound = [f for f, r in report["fields"].items() if not r["bound"]]
+        log("[%s] selftest: %d fields, not bound: %s" % (pid, len(report["fields"]), unbound))
+        return 0
+    except Infra as e:
+        log("[%s] INFRASTRUCTURE ERROR: %s" % (pid, e))
+        return 2
